@@ -16,7 +16,7 @@ import shutil
 
 from hypothesis import HealthCheck, Phase, given, seed as hseed, settings, strategies as st
 
-from vlib import common, model, pool as poolmod, schemagen
+from vlib import common, model, pool as poolmod, rules, schemagen
 
 
 def norm_error(errors):
@@ -59,16 +59,20 @@ def impl_schema(kind, nm):
             '</sbe:messageSchema>\n') % (hdr, types, msg)
 
 
-def impl_name_cases(res, t):
-    """entities named like identifiers the generated code uses itself (template parameters, locals)"""
+def impl_name_cases(res, t, names=None, label="impl_name", sig="implementation-identifier-name", what="an identifier the generated code uses itself",
+                    kinds_per_name=None):
+    """entities named like identifiers the generated code uses itself (template parameters, locals); with names=C++ keywords:
+    whatever sbeppc accepts as a name has to compile as well"""
     sbeppc = common.build_sbeppc("plain")
-    work = common.build_dir("c07-impl-%d" % os.getpid())
+    work = common.build_dir("c07-%s-%d" % (label, os.getpid()))
     n = 0
     try:
-        names = schemagen.IMPL_NAMES
-        kinds = IMPL_KINDS
+        names = names or schemagen.IMPL_NAMES
         cfgs = [poolmod.CONFIGS[2], poolmod.CONFIGS[8]] if t == "quick" else [poolmod.CONFIGS[0], poolmod.CONFIGS[4], poolmod.CONFIGS[5], poolmod.CONFIGS[9]]
-        for nm in names:
+        for ni, nm in enumerate(names):
+            kinds = IMPL_KINDS
+            if kinds_per_name:
+                kinds = [IMPL_KINDS[(ni * kinds_per_name + j + common.seed()) % len(IMPL_KINDS)] for j in range(kinds_per_name)]
             for kind in kinds:
                 xml = impl_schema(kind, nm)
                 d = os.path.join(work, "%s_%s" % (kind, nm))
@@ -79,11 +83,11 @@ def impl_name_cases(res, t):
                 res.count()
                 n += 1
                 if rc != 0:
-                    res.cls("impl_name_rejected_by_sbeppc")
+                    res.cls(label + "_rejected_by_sbeppc")
                     continue   # rejecting such a name is fine for C07 (it speaks about accepted schemas)
                 tu = os.path.join(d, "t.cpp")
                 open(tu, "w").write("#include <pk/pk.hpp>\nint main() { return 0; }\n")
-                res.nontriv("impl:%s:%s" % (kind, nm))
+                res.nontriv("%s:%s:%s" % (label, kind, nm))
                 bad = None
                 for cfg in cfgs:
                     r = common.run(poolmod.compile_cmd(cfg, os.path.join(d, "out"), tu, syntax_only=True))
@@ -92,13 +96,12 @@ def impl_name_cases(res, t):
                         bad = (cfg, r.stdout.decode(errors="replace"))
                         break
                 if bad:
-                    res.cls("impl_name_compile_fail")
-                    res.violation("implementation-identifier-name:%s" % nm,
+                    res.cls(label + "_compile_fail")
+                    res.violation("%s:%s" % (sig, nm),
                                   {"schema_xml": xml, "config": poolmod.cfg_name(bad[0])},
-                                  "%s named `%s` (an identifier the generated code uses itself): %s" % (
-                                      kind, nm, poolmod.first_errors(bad[1], 1)[0]))
+                                  "%s named `%s` (%s): %s" % (kind, nm, what, poolmod.first_errors(bad[1], 1)[0]))
                 else:
-                    res.cls("impl_name_ok")
+                    res.cls(label + "_ok")
     finally:
         shutil.rmtree(work, ignore_errors=True)
 
@@ -145,6 +148,9 @@ def run(t, budget=1.0):
         if p.meta.get("errors"):
             raise RuntimeError("pool generator error (harness problem, not a verdict): %s" % p.meta["errors"][:2])
     impl_name_cases(res, t)
+    # C++ keywords as names: sbeppc is expected to refuse them (C08 checks that); whatever it lets through must still compile
+    impl_name_cases(res, t, names=sorted(rules.KEYWORDS), label="keyword_name", sig="accepted-keyword-name",
+                    what="a C++ keyword sbeppc accepted as a name", kinds_per_name=3 if t == "quick" else None)
     return res.finish()
 
 
